@@ -12,7 +12,16 @@ NOTES = {
     "C04-m2": "rebased on fixes cb4ea3a / f12a222 / 446eb9d (set_shape_memo replaced by savepoint helpers)",
     "C01-m1": "rebased on fix cb4ea3a",
     "C12-m1": "rebased on fixes cb4ea3a / 446eb9d: the '?'-label clear is kept for Exception only (BaseException path restores bindings but not the label)",
-    "C18-m1": "rebased on fix 413ae16: the non-exception-safe manual patching now surrounds get_code(); new demo.py (hooked module whose source does not compile); original kept as demo.orig.py / patch.orig.diff",
+    "C18-m1": "rebased on fix 413ae16 (the non-exception-safe manual patching now surrounds get_code(); new demo.py: hooked module whose source does not compile; original kept as demo.orig.py / patch.orig.diff) and again on fix 712502d (the fix's enter/leave steps called by hand without try/finally; a generator-based context manager entered by hand would be finalised by the garbage collector and hide the slip)",
+    "C18-m3": "rebased on fix 712502d (textual)",
+    "C18-m4": "rebased on fix 712502d (imports)",
+    "C18-m5": "rebased on fix 712502d (automatic 3-way merge)",
+    "C18-m6": "rebased on fix 712502d (imports)",
+    "C18-m7": "rebased on fix 712502d: the mutant's hand-written context manager is made thread-aware like the fix and keeps its slip (bare yield without try/finally)",
+    "C18-m8": "rebased on fix 712502d: the mutant re-implements get_code without any monkey patch, so the fix's helpers are simply dropped",
+    "C19-m4": "rebased on fix 712502d (automatic 3-way merge)",
+    "C11-m7": "written against b5f9e1b, rebased on fix 712502d (union of both insertions)",
+    "C11-m8": "written against b5f9e1b, rebased on fix 712502d (union of both insertions)",
     "C08-m1": "rebased on fix 446eb9d (the mutant's nesting stack replaces the 'only leave flatten mode if we entered it' logic)",
     "C08-m2": "rebased on fixes cb4ea3a / 446eb9d.  Its demo.py no longer fails (after fix 446eb9d nested PyTree checks do not bind AXES during the outer flatten), but the change still breaks 'a rejected tree binds nothing' through STRUCTURE NAMES bound during flattening (a structured PyTree as leaf type of a structure-less one): caught by C04 (before=after) and C16.  Before fix 446eb9d the C08 check caught it directly (rejected-tree-binds-nothing, 1.5 s)",
     "C09-m2": "NEUTRALISED by fix f12a222 (in-place rollback: the dictionary the deferred write goes to can no longer be stale); demo.py passes with the patch applied.  With jaxtyping/_storage.py of f12a222^ the C09 check catches it",
@@ -28,8 +37,8 @@ def main():
     rows = []
     for d in sorted(os.listdir(V)):
         p = os.path.join(V, d)
-        if not os.path.isdir(p) or not os.path.exists(os.path.join(p, "patch.diff")):
-            continue
+        if not os.path.isdir(p) or not os.path.exists(os.path.join(p, "patch.diff")) or d.startswith("refactor-"):
+            continue  # (the behaviour-preserving refactorings have their own meta.json and matrix)
         am = json.load(open(os.path.join(p, "agent_meta.json"))) if os.path.exists(os.path.join(p, "agent_meta.json")) else {}
         m = matrix.get(d, {})
         caught = sorted(c for c, r in m.items() if isinstance(r, dict) and r.get("rc") == 1)
